@@ -23,6 +23,12 @@ OFFSETS = [(lo, fo, co) for lo in (None, 0, 5) for fo in (0, 3) for co in (0, 2)
 BOUNDS = {'quick': dict(N=7, M=5), 'thorough': dict(N=9, M=6)}
 
 
+# errors raised by the token reader itself (cut-off \begin / \end, \verb without argument) and by verbatim parsers, after
+# line ends of every kind
+ERR_ALPHA2 = ['a', '\n', ' ', '\r', '\\end', '\\begin', '\\verb', '\\begin{a}', '\\end{b}', '{', '}', '\\verb|']
+M2 = {'quick': 4, 'thorough': 5}
+
+
 def ref_linecol(s, pos, lo, fo, co):
     line = s.count('\n', 0, pos)
     start = s.rfind('\n', 0, pos) + 1
@@ -34,6 +40,7 @@ def plan(tier):
     b = BOUNDS[tier]
     shards = [('calc', sh) for sh in words.prefix_shards(ALPHA, b['N'], 2)]
     shards += [('err', sh) for sh in words.prefix_shards(ERR_ALPHA, b['M'], 2)]
+    shards += [('err2', sh) for sh in words.prefix_shards(ERR_ALPHA2, M2[tier], 1)]
     return dict(
         shards=shards,
         bounds=dict(b, alphabet=ALPHA, err_alphabet=ERR_ALPHA, offset_settings=len(OFFSETS)),
@@ -42,7 +49,7 @@ def plan(tier):
               'evaluation = one (string, offsets) pair with all its positions, non-trivial iff the '
               'string contains a newline. err: every word of length <= M over the error alphabet '
               'parsed strictly under 3 offset settings (general parser), and through the group / expression parsers and the pylatexenc-2 entry points get_latex_expression, get_latex_braced_group, get_latex_nodes under one; non-trivial iff a parse error was raised '
-              'and checked.  Words are distinct by construction.'),
+              'and checked; the same for every word of length <= 4 (5) over 12 lexemes with cut-off \\begin / \\end / \\verb tokens and carriage returns (errors raised by the token reader itself).  Words are distinct by construction.'),
         assumptions=['oracle: line = number of \\n before pos; column = pos - (index after last \\n) + offset'],
     )
 
@@ -186,6 +193,10 @@ def run_shard(shard, tier, acc):
             s = words.render(ALPHA, w)
             check_calc(s, acc)
             acc.sample(dict(sub='calc', s=s))
+    elif sub == 'err2':
+        for w in words.iter_shard(ERR_ALPHA2, M2[tier], sh):
+            s = words.render(ERR_ALPHA2, w)
+            check_err(s, acc)
     else:
         for w in words.iter_shard(ERR_ALPHA, b['M'], sh):
             s = words.render(ERR_ALPHA, w)
